@@ -4,6 +4,7 @@ package kubeeventsmanager
 
 import (
 	"k8s.io/apimachinery/pkg/apis/meta/v1/unstructured"
+	"k8s.io/client-go/tools/cache"
 
 	"github.com/deckhouse/deckhouse/pkg/log"
 
@@ -134,7 +135,13 @@ func VH_C08_watch_event() {
 	}
 	v1, w1 := vhState("s1")
 	et := kemtypes.WatchEventType(zz.OneOf("event", string(kemtypes.WatchEventAdded), string(kemtypes.WatchEventModified), string(kemtypes.WatchEventDeleted)))
-	ei.handleWatchEvent(vhObject(shape, v1, w1), et)
+	if zz.Bool("delete_arrives_as_tombstone") {
+		// a deletion noticed only by a re-list is delivered wrapped in a tombstone
+		zz.Assume(et == kemtypes.WatchEventDeleted)
+		ei.handleWatchEvent(cache.DeletedFinalStateUnknown{Key: "ns/p", Obj: vhObject(shape, v1, w1)}, et)
+	} else {
+		ei.handleWatchEvent(vhObject(shape, v1, w1), et)
+	}
 
 	same := v0 == v1
 	if shape == vhNoFilter {
